@@ -158,7 +158,8 @@ def run_shard(spec, M):
             k += 1
             if spec.get("mutations"):
                 lines = text.split("\n")
-                for j in range(len(lines)):
+                positions = range(len(lines)) if len(lines) <= 150 else range(0, len(lines), max(1, len(lines) // 50))
+                for j in positions:
                     for name, mut in (("del", lines[:j] + lines[j + 1:]), ("dup", lines[:j + 1] + lines[j:]),
                                       ("swap", lines[:j] + lines[j + 1:j + 2] + lines[j:j + 1] + lines[j + 2:])):
                         t = "\n".join(mut)
